@@ -211,6 +211,13 @@ def run (j : Json) : Except String Json := do
                  ("cmp", Json.arr cmp.toArray),
                  ("mode", Json.str mode),
                  ("deep", Json.bool deep),
+                 -- the two Lean models of phase one (flat `p1Rejects`, general `deser` of Sem/Deser.lean) agree
+                 ("p1VsDeser", Json.bool (deep || mode != "deser" ||
+                    phaseOneInvalid O doc fields ==
+                      (fieldsD.filterMap fun nf => match lookup nf.1 doc with
+                        | none => none
+                        | some v => if v.isNone then none else
+                          if isOk (deser O opts c.ignoreNone nf.2 v) then none else some nf.1))),
                  ("phase1", Json.arr ((if deep then (p1SitesD O opts c.ignoreNone scratch doc fieldsD).map (·.top)
                                        else phaseOneInvalid O doc fields).map Json.str).toArray),
                  ("deserCollected", Json.arr ((deserCollected O c doc kw fields).map Json.str).toArray)]
